@@ -13,6 +13,7 @@ import (
 	"runtime"
 	"sort"
 	"strings"
+	"sync"
 	"time"
 
 	"verif/explore"
@@ -51,6 +52,7 @@ type Part struct {
 	herr             []string
 	body             func(*explore.Ctx)
 	bfs              bool
+	workers          int // explorer workers that ran executions of this part concurrently in one process
 }
 
 // Run is one invocation of a check.
@@ -84,6 +86,9 @@ type Replay struct {
 	Message  string         `json:"message"`
 	Extra    map[string]any `json:"extra,omitempty"`
 	BFS      bool           `json:"bfs_history,omitempty"` // choices are a BFS history: run exactly these steps
+	// Concurrent > 0: the failure only occurs while several executions run concurrently in one process
+	// (shared state inside the library); the replay runs the witness on that many goroutines at once.
+	Concurrent int `json:"concurrent_workers,omitempty"`
 }
 
 // Finding is an entry of known_findings.json.
@@ -166,7 +171,7 @@ func (r *Run) Explore(cfg explore.Config, rule string, body func(*explore.Ctx)) 
 		Nontrivial: res.Nontrivial, DistinctNontriv: int64(res.DistinctNontriv),
 		Exhaustive: res.Exhaustive, CapHit: res.CapHit, Tags: res.Tags,
 		WallS: res.Wall.Seconds(), samples: res.Samples, violations: res.Violations,
-		herr: res.HarnessErrors, body: body}
+		herr: res.HarnessErrors, body: body, workers: cfg.Workers}
 	r.parts = append(r.parts, p)
 	fmt.Printf("part %s: executions=%d choice_points=%d max_depth=%d distinct_outcomes=%d nontrivial=%d distinct_nontrivial=%d exhaustive=%v %s violations=%d wall=%.1fs\n",
 		p.Name, p.Executions, p.Transitions, p.MaxDepth, p.DistinctOutcomes, p.Nontrivial, p.DistinctNontriv, p.Exhaustive, p.CapHit, len(p.violations), p.WallS)
@@ -194,7 +199,7 @@ func (r *Run) BFS(cfg explore.BFSConfig, rule string, body func(*explore.Ctx)) *
 		Rule: rule, Executions: res.Executions, States: res.States, Transitions: res.Transitions,
 		MaxDepth: res.Depth, DistinctOutcomes: res.States, Nontrivial: res.Transitions, DistinctNontriv: res.States,
 		Exhaustive: res.CapHit == "" && len(res.HarnessErrs) == 0, CapHit: res.CapHit, Closure: &cl, WallS: res.Wall.Seconds(),
-		Extra: map[string]any{"dead_end_states": res.DeadEnds},
+		Extra:   map[string]any{"dead_end_states": res.DeadEnds},
 		samples: res.Samples, violations: res.Violations, herr: res.HarnessErrs, body: body, bfs: true}
 	r.parts = append(r.parts, p)
 	fmt.Printf("part %s: BFS states=%d transitions=%d executions=%d depth=%d closure=%v %s violations=%d wall=%.1fs\n",
@@ -228,6 +233,17 @@ func (r *Run) ReplayOf(name string) *Replay {
 
 func (r *Run) doReplay(cfg explore.Config, body func(*explore.Ctx)) {
 	rp := r.replay
+	if rp.Concurrent > 0 {
+		sig := strings.TrimSuffix(rp.Sig, " / only while other calls run concurrently")
+		n := concurrentFailures(body, rp.Choices, rp.Clause, sig, rp.Concurrent)
+		fmt.Printf("replay of %s, choices %v, on %d goroutines at once, 8 executions each\n", rp.Harness, rp.Choices, rp.Concurrent)
+		if n == 0 {
+			fmt.Println("no oracle clause failed on this tree")
+		} else {
+			fmt.Printf("FAILED clause=%s signature=%q in %d of %d concurrent executions\n", rp.Clause, rp.Sig, n, 8*rp.Concurrent)
+		}
+		return
+	}
 	var first string
 	for i := 0; i < 2; i++ {
 		lim := -1
@@ -360,6 +376,19 @@ func (r *Run) Finish() {
 						v.Labels = c.Labels()
 					}
 				}
+				if ok == 0 && p.workers > 1 && !p.bfs {
+					// The failure was seen while other executions of the same part ran concurrently in this
+					// process and does not occur when the witness runs alone (twice).  The harness bodies are
+					// functions of their choices and share nothing, so the calls into the library interfere with
+					// each other: state shared between independent calls (a package-level buffer or cache).
+					// Confirm it with a concurrent re-execution: the witness on all workers at once.
+					if n := concurrentFailures(p.body, v.Choices, v.Clause, v.Sig, p.workers); n > 0 {
+						v.Concurrent = p.workers
+						v.Sig += " / only while other calls run concurrently"
+						v.Msg = fmt.Sprintf("the witness passes when it runs alone and fails in %d of %d executions that run concurrently in one process: independent calls into the library interfere (shared state).  When run concurrently: %s", n, 8*p.workers, v.Msg)
+						ok = 2
+					}
+				}
 				if ok != 2 {
 					flaky = append(flaky, fmt.Sprintf("%s: violation %s/%s not reproducible on re-execution (%d/2): flaky oracle", p.Name, v.Clause, v.Sig, ok))
 					continue
@@ -367,7 +396,7 @@ func (r *Run) Finish() {
 			}
 			nviol++
 			rp := Replay{Property: r.Prop, Harness: v.Harness, Tier: r.Tier, Clause: v.Clause, Sig: v.Sig,
-				Choices: v.Choices, Labels: v.Labels, Case: v.Case, Message: v.Msg, BFS: p.bfs}
+				Choices: v.Choices, Labels: v.Labels, Case: v.Case, Message: v.Msg, BFS: p.bfs, Concurrent: v.Concurrent}
 			path := writeReplay(&rp)
 			lines = append(lines, fmt.Sprintf("VIOLATION property=%s replay=%s", r.Prop, path))
 			msg := v.Msg
@@ -522,4 +551,35 @@ func (r *Run) writeEvidence(nviol, nknown int) {
 	if err := os.WriteFile(filepath.Join(dir, r.Prop+".json"), b, 0o644); err != nil {
 		explore.Fatal("evidence: %v", err)
 	}
+}
+
+// concurrentFailures runs the witness 8 times on each of n goroutines at once and counts the executions
+// in which the given failure occurs.
+func concurrentFailures(body func(*explore.Ctx), choices []int, clause, sig string, n int) int {
+	var mu sync.Mutex
+	var wg sync.WaitGroup
+	count := 0
+	for w := 0; w < n; w++ {
+		wg.Add(1)
+		go func() {
+			defer wg.Done()
+			for i := 0; i < 8; i++ {
+				c, pmsg := explore.ExecLimit(body, choices, false, -1)
+				fails := c.Fails()
+				if pmsg != "" {
+					fails = append(fails, explore.Failure{Clause: "panic", Sig: explore.PanicSignature(pmsg)})
+				}
+				for _, f := range fails {
+					if f.Clause == clause && f.Sig == sig {
+						mu.Lock()
+						count++
+						mu.Unlock()
+						break
+					}
+				}
+			}
+		}()
+	}
+	wg.Wait()
+	return count
 }
